@@ -45,7 +45,7 @@ var dims = []dim{
 	{"record", []string{"present", "removed"}},
 	{"nonce-sig", []string{"own-key", "other-registered-key", "unregistered-key", "missing"}},
 	{"skip-flag", []string{"unset", "set"}},
-	{"node-id", []string{"absent", "matching", "foreign", "matching-on-plain-storage"}},
+	{"node-id", []string{"absent", "matching", "foreign", "matching-on-plain-storage", "unknown-on-empty-set-loader"}},
 	{"state", []string{"none", "validly-signed", "forged"}},
 	{"preference", []string{"valid", "garbage", "absent"}},
 	{"common-name", []string{"unset", "set"}},
@@ -196,6 +196,10 @@ func (w *world) build(v vector, nonceLabel string) (*harness.AuthClient, nodeenr
 	case 3:
 		req.NodeId = "X"
 		storage = harness.Plain{S: st}
+	case 4:
+		// a node id nobody is registered under, on a loader that answers with an empty set and no error
+		req.NodeId = "Z"
+		st.EmptySetNoError = true
 	}
 	sb, _ := proto.Marshal(stateMsg)
 	stateSigner := ""
@@ -252,6 +256,8 @@ func (w *world) build(v vector, nonceLabel string) (*harness.AuthClient, nodeenr
 		}
 	case v[5] == 2:
 		lookup = []string{"K2"}
+	case v[5] == 4:
+		lookup = nil
 	default:
 		if v[2] == 0 {
 			lookup = []string{"K1"}
@@ -397,6 +403,66 @@ func (w *world) oneFetch(arr string, authorized bool, r *engine.Report) (string,
 		}
 	}
 	r.Branch("fetch-never-returned")
+	return "", ""
+}
+
+// oneAfterFetch runs the vector's client as the *second* connection of a
+// listener that has just handled a credential-fetch handshake: nothing of one
+// handshake may carry over into the next.
+func (w *world) oneAfterFetch(v vector, authorizedFetch bool, r *engine.Report) (string, string) {
+	vclock.Freeze(connectTime)
+	c, storage, may, why := w.build(v, "after-fetch:"+v.String())
+	k, e := harness.NewCertKey("prior-fetcher", w.seed), harness.NewEncKey("prior-fetcher-enc", w.seed)
+	freq := harness.SignedRequest(harness.Info(k, e, harness.Bytes("prior-fetch-nonce", 32)), k)
+	if authorizedFetch {
+		if ms, ok := storage.(*harness.MemStore); ok {
+			if _, err := registration.AuthorizeNode(harness.Ctx, ms, freq); err != nil {
+				panic(err)
+			}
+		}
+	}
+	raw, _ := proto.Marshal(freq)
+	fp, _ := nodetls.BreakIntoNextProtos(nodeenrollment.FetchNodeCredsNextProtoV1Prefix, base64.RawStdEncoding.EncodeToString(raw))
+	rs, serr := harness.Serve(harness.ServerConfig{Storage: storage}, func(addr string) {
+		if rc, err := net.DialTimeout("tcp", addr, 10*time.Second); err == nil {
+			tc := tls.Client(rc, &tls.Config{MinVersion: tls.VersionTLS13, InsecureSkipVerify: true, NextProtos: fp,
+				GetClientCertificate: func(*tls.CertificateRequestInfo) (*tls.Certificate, error) {
+					return &tls.Certificate{Certificate: [][]byte{harness.SelfSignedCert(k, nodeenrollment.CommonDnsName)}, PrivateKey: k.Priv}, nil
+				}})
+			tc.SetDeadline(time.Now().Add(30 * time.Second))
+			if tc.Handshake() == nil {
+				var b [1]byte
+				tc.Read(b[:])
+			}
+			rc.Close()
+		}
+		if conn, _ := c.Connect(addr); conn != nil {
+			conn.Close()
+		}
+	})
+	defer harness.CloseAll(rs)
+	if serr != nil {
+		r.InfraError(serr.Error())
+		return "", ""
+	}
+	if len(rs) != 2 {
+		r.InfraError(fmt.Sprintf("expected two accepts, got %d", len(rs)))
+		return "", ""
+	}
+	res := rs[1]
+	switch {
+	case res.Panic != "":
+		return "panic:after-fetch", "Accept panicked: " + res.Panic
+	case res.Authenticated && !may:
+		var bad []string
+		for i, x := range v {
+			if x != 0 {
+				bad = append(bad, dims[i].Name+"="+dims[i].Values[x])
+			}
+		}
+		return "authenticated-unentitled:after-a-fetch-handshake:" + strings.Join(bad, ","), fmt.Sprintf("client {%s}, connecting right after a credential-fetch handshake on the same listener, was returned as an authenticated connection although %s", v, why)
+	}
+	r.Branch("after-fetch-judged")
 	return "", ""
 }
 
@@ -614,7 +680,7 @@ func allVectors(maxDishonest int) []vector {
 }
 
 func run(c *engine.Ctx, r *engine.Report) {
-	r.Need("authenticated", "honest-authenticated", "rejected", "mutation-rejected", "history:authenticated", "history:rejected", "fetch-never-returned")
+	r.Need("authenticated", "honest-authenticated", "rejected", "mutation-rejected", "history:authenticated", "history:rejected", "fetch-never-returned", "after-fetch-judged")
 	w := newWorld(c.Seed)
 	max := 3
 	if c.Thorough() {
@@ -642,6 +708,21 @@ func run(c *engine.Ctx, r *engine.Report) {
 		r.Nontrivial(1)
 		if i%997 == 1 {
 			r.Sample(v.String())
+		}
+	}
+	// every vector with at most one dishonest coordinate, as the second connection after a fetch handshake
+	for _, v := range allVectors(1) {
+		for _, authd := range []bool{false, true} {
+			i++
+			if !c.Mine(i) {
+				continue
+			}
+			r.Eval(1)
+			if sig, msg := w.oneAfterFetch(v, authd, r); sig != "" {
+				r.Violate(sig, msg, kase{Kind: "after-fetch", Vector: v, Path: []string{fmt.Sprint(authd)}, Seed: c.Seed})
+				continue
+			}
+			r.Nontrivial(1)
 		}
 	}
 	for _, arr := range []string{"fetch-only", "application-proto-first", "application-proto-last", "preference-first", "unknown-library-like-first"} {
@@ -699,6 +780,8 @@ func replay(c *engine.Ctx, raw json.RawMessage) (string, bool) {
 		sig, msg = w.oneMutation(k.Kind, k.Pos, r)
 	case "fetch":
 		sig, msg = w.oneFetch(k.Path[0], k.Path[1] == "true", r)
+	case "after-fetch":
+		sig, msg = w.oneAfterFetch(k.Vector, k.Path[0] == "true", r)
 	case "history":
 		h := hstate{st: harness.NewMemStore()}
 		vclock.Freeze(harness.T0)
@@ -722,7 +805,7 @@ func init() {
 	engine.Register(&engine.CheckDef{
 		ID:    "C02",
 		Level: "exploration",
-		Rule: "hand-built TLS 1.3 clients against the real InterceptingListener over a loopback socket, 15 virtual days after enrollment (one root expired, one valid): product of 9 capability dimensions (holds key 2 x certificate 7 x record 2 x nonce signature 4 x skip flag 2 x node-id hint 4 x client state 3 x certificate preference 3 x common name 2 = 16128; quick: all vectors with at most 3 dishonest coordinates); every single-bit flip and truncation of an honest ALPN-carried request; well-formed fetch handshakes (authorized and not) in 5 ALPN arrangements, none of which may yield a connection; BFS over register / remove / connect of two nodes with the real dialer; oracle: authenticated => possession proof, chain to a currently valid root, nonce (and state) signed by the key of a record the property says is consulted; " +
+		Rule: "hand-built TLS 1.3 clients against the real InterceptingListener over a loopback socket, 15 virtual days after enrollment (one root expired, one valid): product of 9 capability dimensions (holds key 2 x certificate 7 x record 2 x nonce signature 4 x skip flag 2 x node-id hint 5 x client state 3 x certificate preference 3 x common name 2 = 20160; quick: all vectors with at most 3 dishonest coordinates); every single-bit flip and truncation of an honest ALPN-carried request; well-formed fetch handshakes (authorized and not) in 5 ALPN arrangements, none of which may yield a connection; every vector with at most one dishonest coordinate again as the second connection of a listener that has just served a fetch handshake; BFS over register / remove / connect of two nodes with the real dialer; oracle: authenticated => possession proof, chain to a currently valid root, nonce (and state) signed by the key of a record the property says is consulted; " +
 			"distinct_nontrivial counts handshakes (distinct by construction) that completed on the server side with a verdict",
 		Assumptions: []string{"forged = signed with another pool key; captured signatures are modelled by giving the adversary the signature but not the TLS key", "the honest vector must authenticate (vacuity guard), other entitled vectors may be rejected"},
 		Shards:      func(c *engine.Ctx) int { return 16 },
